@@ -23,6 +23,10 @@ def read(data, **kw):
 # repaired in /repo (efe7e45, c8ef5ea, f1984b1): these cases now ASSERT the repaired behaviour
 REPAIRED = {"dict_boolean_v1_w2": "ok", "dict_boolean_v1_w3": "ok", "dict_boolean_v1": "ok", "v1_rle_boolean": "ok",
             "v1_bit_packed_levels": "NotImplementedError",
+            # categorical read of a chunk that fell back to PLAIN v1 pages: refused since af3a4f3
+            "fallback_categorical_required": "ValueError", "fallback_categorical_optional": "ValueError",
+            # ... and of a chunk that fell back to a PLAIN DATA_PAGE_V2 page: refused since c3e23bf
+            "fallback_categorical_v2": "ValueError", "fallback_categorical_v2_int32_codes": "ValueError",
             # row mask through read_col, repaired by e953da1 (nan == None for the object column)
             "mask_v1_page_without_selection": "ok", "mask_v1_nulls_shift_mask_cursor": "ok", "mask_v1_nulls_before_selection": "ok",
             "mask_v1_multipage_every_page_selected_no_nulls": "ok", "mask_v2_multipage": "IndexError"}
@@ -240,3 +244,40 @@ if __name__ == "__main__":
     if FAILED:
         print("FAILED (repaired behaviour not observed):", FAILED)
         sys.exit(1)
+
+
+def fallback_categorical_v2():
+    """categorical read of a chunk whose second page is a PLAIN DATA_PAGE_V2 (dictionary fallback): not covered by af3a4f3 (v2 pages leave
+    the loop body before the guard)"""
+    col = W.ColumnSpec("x", "INT32", optional=False)
+    rows = [5, 7, 5, 9, 7, 5, 5, 9, 10, 11, 12, 13]
+    lay = W.ChunkLayout(pages=[W.PageLayout(n=8, version=1, encoding="RLE_DICTIONARY"), W.PageLayout(n=None, version=2, encoding="PLAIN")],
+                        dictionary="auto")
+    data = W.encode_file([col], [{"x": rows}], layout=lay)
+    plain = list(read(data)["x"])
+    cat = read(data, categories=["x"])["x"]
+    return {"expected": rows, "plain_read": plain, "categorical_read": [None if x != x else x for x in cat]}
+
+
+if __name__ == "__main__":
+    if "fallback_categorical_v2" in sel:
+        case("fallback_categorical_v2", fallback_categorical_v2)
+
+
+def fallback_categorical_v2_int32_codes():
+    """the same with > 32767 dictionary entries: the category codes are int32, as wide as the PLAIN INT32 values of the v2 fallback page"""
+    col = W.ColumnSpec("x", "INT32", optional=False)
+    n = 40000
+    rows = [100000 + k for k in range(n)] + [7, 8, 9, 10]
+    lay = W.ChunkLayout(pages=[W.PageLayout(n=n, version=1, encoding="RLE_DICTIONARY"), W.PageLayout(n=None, version=2, encoding="PLAIN", compressed=False)],
+                        dictionary="auto")
+    data = W.encode_file([col], [{"x": rows}], layout=lay)
+    plain = list(read(data)["x"])
+    cat = read(data, categories={"x": 50000})["x"]
+    return {"expected_tail": rows[-4:], "plain_read_tail": plain[-4:], "categorical_read_tail": [None if x != x else x for x in list(cat)[-4:]],
+            "codes_tail": list(cat.cat.codes[-4:])}
+
+
+if __name__ == "__main__":
+    if "fallback_categorical_v2_int32_codes" in sel:
+        case("fallback_categorical_v2_int32_codes", fallback_categorical_v2_int32_codes)
